@@ -25,6 +25,10 @@ type c19File struct {
 	Name  string   `json:"name"`
 	Data  []byte   `json:"data"`
 	Paths []string `json:"paths"` // as in the client's map (with batch index prefix in batch mode)
+	// GenSize > 0: the bytes are not stored in the spec but generated from GenSeed when the case runs (files beyond
+	// the gateway's 32 MiB in-memory multipart limit, which live in a temporary file while the request is served)
+	GenSize int   `json:"gen_size,omitempty"`
+	GenSeed int64 `json:"gen_seed,omitempty"`
 }
 
 type c19Case struct {
@@ -201,6 +205,14 @@ func (p c19) Gen(c *run.Ctx, idx int) (json.RawMessage, error) {
 		}
 		cs.Files = append(cs.Files, f)
 	}
+	if idx%300 == 7 && len(cs.Files) > 0 {
+		// one file larger than the 32 MiB the multipart reader keeps in memory, preferably bound to two paths
+		f := &cs.Files[0]
+		f.Data, f.GenSize, f.GenSeed = nil, 33<<20+r.Intn(4096), r.Int63()
+		if len(f.Paths) == 1 && si < len(perm) {
+			f.Paths = append(f.Paths, slots[perm[si]].path)
+		}
+	}
 	return mustJSON(cs), nil
 }
 
@@ -212,6 +224,13 @@ func (p c19) Exec(c *run.Ctx, idx int, raw json.RawMessage) []run.Result {
 		return []run.Result{{Verdict: "broken", Message: err.Error()}}
 	}
 	res := run.Result{Verdict: run.Held, Counters: map[string]int{}}
+	for i := range sp.Files {
+		if sp.Files[i].GenSize > 0 {
+			sp.Files[i].Data = make([]byte, sp.Files[i].GenSize)
+			rand.New(rand.NewSource(sp.Files[i].GenSeed)).Read(sp.Files[i].Data)
+			res.Counters["files_beyond_32MiB"]++
+		}
+	}
 	r, err := rig.New(sp.U, rig.Config{})
 	if r != nil {
 		defer r.Close()
